@@ -527,6 +527,10 @@ func hcOracle(r *Run, prop string, sc *hcScript) (nontrivial bool) {
 		}
 	case "C04":
 		nontrivial = sc.cancelled
+		if sc.cancelled && !sc.respStream && !sc.trailerOK && len(sc.delivered) > 0 {
+			r.Violate("http-client/stream/partial-success-after-cancel", "never a success with missing data … either the complete real result or the cancellation status, never a mixture of the two",
+				sprintf("the context ended before any OK trailer had been supplied, yet RecvMsg on the single-response method returned %s with a nil error", intsStr(sc.delivered)), desc, line)
+		}
 		if sc.cancelled && !equalInts(sc.delivered, sc.supplied) {
 			for _, res := range sc.afterCancel {
 				if res == "eof" {
